@@ -858,9 +858,18 @@ class Manager:
                 self.unregisterTask((event, task, parent))
                 if parent:
                     value = parent.throw(value.extract())
-                    if value is not None:
-                        value_generator = (val for val in (value,))
-                        self.registerTask((event, value_generator, parent))
+                    # the handler caught the exception and goes on: treat
+                    # what it yields next like after a normal resumption
+                    if isinstance(value, GeneratorType):
+                        task_state = next(value)
+                        task_state.task_event = event
+                        task_state.task = value
+                        task_state.parent = parent
+                    else:
+                        event.waitingHandlers -= 1
+                        if value is not None:
+                            event.value.value = value
+                        self.registerTask((event, parent, None))
                 else:
                     raise value.extract()
             elif isinstance(value, Sleep):
